@@ -137,7 +137,10 @@ class BaseResponse:
             code, status = status, _HTTP_STATUS_LINES.get(status)
         elif ' ' in status:
             status = status.strip()
-            code = int(status.split()[0])
+            # the line goes to the server as it is: three ASCII digits, one space, reason phrase
+            if not (status[:3].isascii() and status[:3].isdigit() and status[3:4] == ' '):
+                raise ValueError('Status line must start with a three-digit code and a space.')
+            code = int(status[:3])
         else:
             raise ValueError('String status line without a reason phrase.')
         if not 100 <= code <= 999:
